@@ -117,6 +117,8 @@ def gen_module(c):
     lines = ['---- MODULE Versions_Gen ----', '\\* generated from the current tree by harness/adapters/versions.py',
              'g_Reg == {' + ', '.join('<<%s, %s, %d>>' % (s(t), s(r), v) for t, r, v in c['reg']) + '}',
              'g_Patch == {' + ', '.join('<<%s, %s>>' % (s(a), s(b)) for a, b in c['patch']) + '}',
+             'g_DataVers == {%s}' % ', '.join(str(v) for t, r, v in c['reg'] if t == 'glue.core.data.Data' and r == 'saver'),
+             'g_DCVers == {%s}' % ', '.join(str(v) for t, r, v in c['reg'] if t == 'glue.core.data_collection.DataCollection' and r == 'saver'),
              'g_Defined == ' + strset(c['defined']), 'g_InPkg == ' + strset(c['inpkg']), 'g_Importable == ' + strset(c['importable']), '====', '']
     return '\n'.join(lines)
 
@@ -187,3 +189,75 @@ def pinned_roundtrips():
                     if m != [False, True, True]:
                         out.append(('group_mask' + tag, [False, True, True], m))
     return out, len(data_versions) * len(dc_versions)
+
+
+def _cycle_keys(patch):
+    d = dict(patch)
+    bad = []
+    for k in d:
+        seen, x = set(), k
+        while x in d and x not in seen:
+            seen.add(x)
+            x = d[x]
+        if x in d:
+            bad.append(k)
+    return sorted(bad)
+
+
+def witness(inv, c):
+    """A small description of why a clause over the extracted constants fails (for the report)."""
+    reg = c['reg']
+    if inv == 'Reg_Consecutive':
+        out = []
+        for t in sorted(set(r[0] for r in reg)):
+            for role in ('saver', 'loader'):
+                vs = sorted(r[2] for r in reg if r[0] == t and r[1] == role)
+                if vs and vs != list(range(1, vs[-1] + 1)):
+                    out.append([t, role, vs])
+        return out
+    if inv == 'Reg_LoaderForEverySaver':
+        out = []
+        for t in sorted(set(r[0] for r in reg)):
+            sv = set(r[2] for r in reg if r[0] == t and r[1] == 'saver')
+            lv = set(r[2] for r in reg if r[0] == t and r[1] == 'loader')
+            if lv and not sv <= lv:
+                out.append([t, sorted(sv - lv)])
+        return out
+    if inv == 'Patch_Functional':
+        keys = [k for k, _ in c['patch']]
+        return sorted(set(k for k in keys if keys.count(k) > 1))
+    if inv == 'Patch_Terminates':
+        return _cycle_keys(c['patch'])
+    if inv == 'Patch_TargetsResolve':
+        d = dict(c['patch'])
+        out = []
+        for k in d:
+            x, n = k, 0
+            while x in d and n <= len(d):
+                x, n = d[x], n + 1
+            if x in c['inpkg'] and x not in c['importable']:
+                out.append([k, x])
+        return sorted(out)
+    return None
+
+
+def without(inv, c):
+    """The constants with the entries that violate `inv` removed (so that the remaining clauses are still evaluated)."""
+    c = dict(c)
+    if inv == 'Patch_Terminates':
+        bad = set(_cycle_keys(c['patch']))
+        c['patch'] = [p for p in c['patch'] if p[0] not in bad]
+    elif inv == 'Patch_Functional':
+        seen, keep = set(), []
+        for p in c['patch']:
+            if p[0] not in seen:
+                keep.append(p)
+                seen.add(p[0])
+        c['patch'] = keep
+    elif inv == 'Patch_TargetsResolve':
+        bad = set(k for k, _ in witness(inv, c))
+        c['patch'] = [p for p in c['patch'] if p[0] not in bad]
+    elif inv in ('Reg_Consecutive', 'Reg_LoaderForEverySaver'):
+        bad = set(w[0] for w in witness(inv, c))
+        c['reg'] = [r for r in c['reg'] if r[0] not in bad]
+    return c
